@@ -96,7 +96,15 @@ class G:
             self.env[name] = v
             return v
         if name not in self.env:
-            raise Reject('witness lacks input %s' % name)
+            # an input the counter-model does not constrain: any admissible value will do
+            if lo is not None and hi is not None:
+                self.env[name] = (lo + hi) / 2.0
+            elif lo is not None:
+                self.env[name] = lo + 0.5
+            elif hi is not None:
+                self.env[name] = hi - 0.5
+            else:
+                self.env[name] = 0.5
         v = float(self.env[name])
         if (lo is not None and v < lo) or (hi is not None and v > hi):
             raise Reject(name)
@@ -168,6 +176,21 @@ class G:
             self.ctx.oblige('derived: ' + name, T.eq(var, rhs), kind='lemma')
             self.ctx.assume(T.eq(var, rhs), tag='derived')
             self.alg.add_var_linear_rule(var, SR.lift(rhs), name)
+
+    def lemma(self, name, cond):
+        """prove `cond` on the current path (an obligation) and keep it as a hypothesis for what follows"""
+        if self.mode == 'symbolic':
+            self.ctx.oblige('lemma: ' + name, cond, kind='lemma',
+                            pair=(cond.args[0], cond.args[1]) if getattr(cond, 'op', None) == '==' else None)
+            self.ctx.assume(cond, tag='lemma')
+
+    def instance(self, name, builder, *terms):
+        """use an instance of a universally valid real-arithmetic fact: `builder(x1..xn)` is proved for fresh
+        variables (an obligation) and then assumed for the given terms"""
+        if self.mode == 'symbolic':
+            fresh = [SR.var('gen_%s_%d' % (name.split(':')[0].replace(' ', '_'), i)) for i in range(len(terms))]
+            self.ctx.oblige('generic lemma: ' + name, builder(*fresh), kind='lemma')
+            self.ctx.assume(builder(*[SR.lift(t) for t in terms]), tag='instance of ' + name)
 
     def use_sq(self, var, rhs, name):
         """derive `var^2 == rhs` on the current path (obligation) and use it as a rewrite rule"""
